@@ -10,7 +10,7 @@ network and the invariant is checked on the resulting object — whatever the co
 helpers, early returns, locals).  shapely, numpy and the reference clean-ups are uninterpreted.
 """
 from ..core import AnalysisError
-from ..strdom import NONE, ClassRef, Ctor, DictV, Ev, FuncV, IdV, ListV, Obj, Str, Sym, Undecided, _Raise, same, show
+from ..strdom import NONE, ClassRef, Ctor, DictV, Ev, FuncV, IdV, ListV, Obj, SetV, Str, Sym, Undecided, _Raise, same, show
 
 LA = "commonroad/scenario/lanelet.py"
 CLEANUPS = ("cleanup_lanelet_references", "cleanup_traffic_light_references", "cleanup_traffic_sign_references")
@@ -713,3 +713,42 @@ def lanelet_polygon_rule(repo, res, RULE="G2-INDEX"):
         except Undecided as x:
             raise AnalysisError("%s: %s" % (qn, x))
         res.check(RULE, "%s: polygon = right boundary + reversed left boundary, as held afterwards" % qn, bad is None, lan.mod, fn, "%s: %s" % (qn, bad), "the lanelet polygon is not the ring right boundary followed by the reversed left boundary of the lanelet as it is now (self-intersecting, wrong area, or stale)", qualname=qn)
+
+
+# --------------------------------------------------------------------------- the scenario's removal of lanelets
+def scenario_remove_rule(repo, res, RULE="CACHE-FRESH"):
+    """Scenario.remove_lanelet(single / list, with lanelets the scenario does not hold anywhere in the list): the
+    network's spatial index mirrors the remaining lanelets afterwards (look-ups by position and by shape answer as on a
+    freshly built network)."""
+    SC_ = "commonroad/scenario/scenario.py"
+    sc = repo.cls(SC_, "Scenario")
+    fn = sc.methods.get("remove_lanelet")
+    if fn is None:
+        raise AnalysisError("Scenario.remove_lanelet missing")
+    qn = "Scenario.remove_lanelet"
+    cases = [("one lanelet", [11], False), ("two lanelets", [11, 25], True), ("a lanelet and then one the scenario does not hold", [11, 77], True), ("a lanelet the scenario does not hold and then one it holds", [77, 25], True), ("all lanelets", [11, 25, 40], True)]
+    for label, ids, as_list in cases:
+        ls = {k: lanelet(repo, k) for k in (11, 25, 40)}
+        for l in ls.values():
+            l.fields.setdefault("_traffic_signs", SetV([]))
+            l.fields.setdefault("_traffic_lights", SetV([]))
+        n = network(repo, list(ls.values()))
+        me = Obj(sc, {"_lanelet_network": n, "_id_set": SetV([11, 25, 40]), "_static_obstacles": DictV(), "_dynamic_obstacles": DictV(), "_environment_obstacle": DictV(), "_phantom_obstacle": DictV()}, label="scenario")
+        ev = evaluator(repo)
+        ev.stubs["Scenario.remove_hanging_lanelet_members"] = lambda a: NONE
+        ev.pure_modules |= {"warnings"}
+        objs = [ls.get(k) or lanelet(repo, k) for k in ids]
+        arg = ListV(objs) if as_list else objs[0]
+        bad = []
+        try:
+            ev.call_fn(ev.bind(fn, sc, me), [arg], {}, fn)
+            bad = invariant(n)
+            left = set(n.fields["_lanelets"].d)
+            want = {11, 25, 40} - set(ids)
+            if left != want:
+                bad.append("the network holds lanelets %s, expected %s" % (sorted(left), sorted(want)))
+        except _Raise as x:
+            bad.append("raises %s" % x.what)
+        except Undecided as x:
+            raise AnalysisError("%s [%s]: %s" % (qn, label, x))
+        res.check(RULE, "%s [%s]: the spatial index mirrors the remaining lanelets" % (qn, label), not bad, sc.mod, fn, "%s [%s]: %s" % (qn, label, "; ".join(bad[:3])), "after removing lanelets through the scenario the network's spatial index is stale: look-ups by position / shape still report removed lanelets", qualname=qn)
